@@ -43,7 +43,7 @@ PATTERNS = {"quick": [(True, False, False, True), (True, True, True, True)], "th
 
 
 def bounds(tier):
-    return {"slots": ["f", "K", "x", "imp", "o"], "statuses": STATUS + ["o: overloads+implementation in stubs", "f: stub signature with an extra leading parameter"], "placements": PLACEMENTS, "orders": ORDERS,
+    return {"slots": ["f", "K", "x", "imp", "o"], "statuses": STATUS + ["o: overloads+implementation in stubs", "f: stub signature with an extra leading parameter", "f: stub signature with / and * markers the runtime signature lacks"], "placements": PLACEMENTS, "orders": ORDERS,
             "doc/annotation patterns": len(PATTERNS[tier])}
 
 
@@ -51,7 +51,7 @@ def all_cases(tier):
     for pat in PATTERNS[tier]:
         if tier == "thorough" and pat == PATTERNS["quick"][0]:
             pass
-        for sv in itertools.product(range(6), range(5), range(5), range(5), range(8)):
+        for sv in itertools.product(range(7), range(5), range(5), range(5), range(8)):
             for pl in PLACEMENTS:
                 yield (sv, pl, pat)
 
@@ -320,13 +320,16 @@ def sources(sv, pat):
     def block(lines):
         return "\n".join(l for l in lines if l is not None)
 
-    if f in (1, 3, 4, 5):
+    if f in (1, 3, 4, 5, 6):
         rt.append(block([f"def f(a{': float' if rt_ann else ''}, b{': float' if rt_ann else ''}=1){' -> float' if rt_ann else ''}:", d(rt_doc, "Runtime doc f."), "    return 0"]))
     if f in (2, 3):
         st.append(block([f"def f(a{': int' if st_ann else ''}, b{': str' if st_ann else ''} = ...){' -> bool' if st_ann else ''}:", d(st_doc, "Stub doc f."), "    ..."]))
     if f == 5:
         # same kind on both sides, but the stub signature starts with a parameter the runtime function does not have
         st.append(block([f"def f(stub_only{': bytes' if st_ann else ''}, a{': int' if st_ann else ''}, b{': str' if st_ann else ''} = ...){' -> bool' if st_ann else ''}:", d(st_doc, "Stub doc f."), "    ..."]))
+    if f == 6:
+        # same kind, same names, but the stub marks `a` positional-only and `b` keyword-only where the runtime signature has no markers
+        st.append(block([f"def f(a{': int' if st_ann else ''}, /, *, b{': str' if st_ann else ''} = ...){' -> bool' if st_ann else ''}:", d(st_doc, "Stub doc f."), "    ..."]))
     if f == 4:
         st.append("f: int")
     if k in (1, 3, 4):
@@ -422,7 +425,7 @@ def expected(sv, pat):
     elif f == 2:
         e["f"] = {"kind": "function", "runtime": False, "doc": "Stub doc f." if st_doc else None, "params": [("a", "int" if st_ann else None), ("b", "str" if st_ann else None)],
                   "returns": "bool" if st_ann else None, "overloads": None}
-    elif f in (3, 5):
+    elif f in (3, 5, 6):
         e["f"] = {"kind": "function", "runtime": True, "doc": doc("Runtime doc f.", "Stub doc f.", True, True), "params": [("a", "int" if st_ann else None), ("b", "str" if st_ann else None)],
                   "returns": "bool" if st_ann else None, "overloads": None}
     if k in (1, 4):
@@ -533,8 +536,68 @@ def run_case(griffe, acc, case):
     for where, fld, g, e in _diff(results["asc"][0], exp):
         slot = where.split(".")[0]
         st = sv[names[slot]] if slot in names else -1
-        status = "stub-overloads+implementation" if (slot == "o" and st == 5) else "stub-only-overloads+implementation" if (slot == "o" and st == 6) else "runtime-unresolvable-alias+stub-overloads" if (slot == "o" and st == 7) else "both+stub-only-parameter" if (slot == "f" and st == 5) else (STATUS[st] if 0 <= st < 5 else "?")
+        status = "stub-overloads+implementation" if (slot == "o" and st == 5) else "stub-only-overloads+implementation" if (slot == "o" and st == 6) else "runtime-unresolvable-alias+stub-overloads" if (slot == "o" and st == 7) else "both+stub-only-parameter" if (slot == "f" and st == 5) else "both+stub-kind-markers" if (slot == "f" and st == 6) else (STATUS[st] if 0 <= st < 5 else "?")
         acc.violation(f"merge/{where}/{status}/{fld}" + (f"/{pl}" if fld in ("missing", "extra") else ""), f"{modpath}.{where} ({status}): {fld} is {g!r}, reference merge says {e!r}", cd, {"placement": pl}, size=size)
+
+
+# SL: the same package and stubs distribution reached through symbolic links (the `pkg-stubs` entry of the search path links to a directory of another name, the
+# package itself is a link, both): the merged tree is the one obtained from plain directories (which the status-vector family judges against the reference merge)
+SL_RT = {"pkg/__init__.py": "top = 1\n", "pkg/mod.py": "def f(a, b=1):\n    return 0\nclass K:\n    v = 1\n    def m(self, p):\n        return p\n", "pkg/sub/__init__.py": "", "pkg/sub/deep.py": "def d(x):\n    return x\n"}
+SL_ST = {"__init__.pyi": "top: int\n", "mod.pyi": "def f(a: int, b: str = ...) -> bool: ...\ndef g() -> None: ...\nclass K:\n    v: int\n    def m(self, p: int) -> None: ...\n", "sub/__init__.pyi": "",
+         "sub/deep.pyi": "def d(x: bytes) -> bytes: ...\n", "extra.pyi": "only_in_stubs: int\n"}
+SL_LAYOUTS = {
+    "plain": lambda: {**{"site/" + k: v for k, v in SL_RT.items()}, **{"site/pkg-stubs/" + k: v for k, v in SL_ST.items()}},
+    "stubs-link-other-name": lambda: {**{"site/" + k: v for k, v in SL_RT.items()}, **{"typings/pkg/" + k: v for k, v in SL_ST.items()}, "site/pkg-stubs": "SYMLINK->../typings/pkg"},
+    "stubs-link-same-name": lambda: {**{"site/" + k: v for k, v in SL_RT.items()}, **{"typings/pkg-stubs/" + k: v for k, v in SL_ST.items()}, "site/pkg-stubs": "SYMLINK->../typings/pkg-stubs"},
+    "package-link": lambda: {**{"src/" + k: v for k, v in SL_RT.items()}, **{"site/pkg-stubs/" + k: v for k, v in SL_ST.items()}, "site/pkg": "SYMLINK->../src/pkg"},
+    "both-links": lambda: {**{"src/" + k: v for k, v in SL_RT.items()}, **{"typings/stubs-of-pkg/" + k: v for k, v in SL_ST.items()}, "site/pkg": "SYMLINK->../src/pkg", "site/pkg-stubs": "SYMLINK->../typings/stubs-of-pkg"},
+}
+
+
+def _sl_summary(mod):
+    out = {}
+
+    def rec(o):
+        for n, m in sorted(o.members.items()):
+            if m.is_alias:
+                continue
+            row = {"kind": m.kind.value, "runtime": m.runtime}
+            if m.is_function:
+                row["params"] = [(p.name, None if p.annotation is None else str(p.annotation)) for p in m.parameters]
+                row["returns"] = None if m.returns is None else str(m.returns)
+            if m.is_attribute:
+                row["annotation"] = None if m.annotation is None else str(m.annotation)
+            out[m.path] = row
+            if m.is_module or m.is_class:
+                rec(m)
+
+    rec(mod)
+    return out
+
+
+def _run_symlinks(griffe, acc):
+    base = None
+    for lname, mk in SL_LAYOUTS.items():
+        for order in ORDERS:
+            cd = {"family": "symlinks", "layout": lname, "order": order}
+            with sandbox.scratch_dir("c19l") as d:
+                sandbox.write_tree(d, {k: v for k, v in mk().items() if not v.startswith("SYMLINK->")})
+                sandbox.write_tree(d, {k: v for k, v in mk().items() if v.startswith("SYMLINK->")})
+                try:
+                    with listing.Listing(listing.ascending if order == "asc" else listing.descending):
+                        loader = griffe.GriffeLoader(search_paths=[os.path.join(d, "site")], allow_inspection=False)
+                        got = _sl_summary(loader.load("pkg", find_stubs_package=True))
+                except Exception as e:  # noqa: BLE001
+                    acc.violation(f"symlinks/raise/{type(e).__name__}/{lname}", f"load with the stubs distribution raised {e!r}", cd, None, size=1)
+                    continue
+            if base is None:
+                base = got
+            acc.case(cd, outcome="symlinks:" + ("same" if got == base else "differs"), nontrivial=True)
+            acc.observe(sorted(got))
+            if got != base:
+                bad = sorted(k for k in set(got) | set(base) if got.get(k) != base.get(k))[0]
+                what = "missing" if bad not in got else "extra" if bad not in base else "annotations"
+                acc.violation(f"symlinks/{what}/{lname}", f"layout {lname} ({order}): {bad} is {got.get(bad)}, from plain directories {base.get(bad)}", cd, None, size=1)
 
 
 def run_shard(shard, tier):
@@ -542,6 +605,8 @@ def run_shard(shard, tier):
     import griffe
 
     acc = Acc()
+    if shard == 0:
+        _run_symlinks(griffe, acc)
     for idx, case in enumerate(all_cases(tier)):
         if idx % NSHARDS != shard:
             continue
@@ -559,6 +624,9 @@ def replay(case):
     import griffe
 
     acc = Acc()
+    if case.get("family") == "symlinks":
+        _run_symlinks(griffe, acc)
+        return [(k, v["summary"], v["detail"]) for k, v in acc.violations.items()]
     c = case["case"]
     run_case(griffe, acc, (tuple(c[0]), c[1], tuple(c[2])))
     return [(k, v["summary"], v["detail"]) for k, v in acc.violations.items()]
